@@ -60,6 +60,10 @@ def _lengths(rng):
         if n >= 4:      # a header that is consistent with the datagram's own length is still not a broadcast unless the length is one of the three
             out.append((b"\xfe\xf0" + n.to_bytes(2, "little") + body[4:]).hex())
             out.append((b"\xfe\xf0" + n.to_bytes(2, "little") + bytes(n - 4)).hex())
+    for n in (158, 160, 161, 164, 166, 167, 169, 170):       # next to the three lengths, ending in bytes that text matching treats specially
+        for last in (0x0a, 0x0d, 0x00, 0x20, 0xff):
+            out.append((b"\xfe\xf0" + rng.randbytes(n - 3) + bytes([last])).hex())
+            out.append((b"\xfe\xf0" + bytes(n - 3) + bytes([last])).hex())
     for n in (159, 165, 168):
         for first in (b"\xfe\xf1", b"\xff\xf0", b"\xf0\xfe", b"\xfe\x0f", b"\x00\x00"):
             out.append((first + rng.randbytes(n - 2)).hex())
@@ -73,6 +77,11 @@ def _around_captures():
         b = bytes.fromhex(c["dgram"])
         for k in (1, 2, 3):
             out += [b[:-k].hex(), (b + bytes(k)).hex(), b[k:].hex()]
+            # one to three bytes too long is too long whatever the extra bytes are (line ends, blanks, NULs, 0xff - the bytes that
+            # text-minded matching treats specially)
+            for tail in (0x0a, 0x0d, 0x20, 0xff, 0x09):
+                out.append((b + bytes([tail]) * k).hex())
+        out += [(b + b"\r\n").hex(), (b[:-1] + b"\n").hex(), (b"\n" + b).hex()]
         # a genuine broadcast in some other guise is not a broadcast: its hex dump as text (lower, upper, with a newline), base64,
         # sent twice in one datagram, reversed, with a text prefix
         t = b.hex()
